@@ -70,6 +70,34 @@ def encode(levels, times, curves='lin', release_node=None, loop_node=None):
     return out
 
 
+def encode_interpolation(levels, times, curves='lin', offset=0):
+    """The array IEnvGen receives (IEnvGen help / asArrayForInterpolation):
+    [offset, initial level, number of segments, total duration] followed, per
+    segment, by [duration, shape number, curvature, target level]."""
+    segs = segments(levels, times, curves)
+    total = 0
+    for _, _, dur, _ in segs:
+        total = total + dur
+    out = [offset, levels[0], len(segs), total]
+    for _, target, dur, curve in segs:
+        shape, curvature = shape_and_curvature(curve)
+        out += [dur, shape, curvature, target]
+    return out
+
+
+def interpolation_index(i):
+    """Index in the IEnvGen array of EnvGen-array slot i (None for the
+    release / loop node slots, which IEnvGen does not have)."""
+    if i == 0:
+        return 1
+    if i == 1:
+        return 2
+    if i in (2, 3):
+        return None
+    k, s = divmod(i - 4, 4)
+    return 4 + 4 * k + {0: 3, 1: 0, 2: 1, 3: 2}[s]
+
+
 # ---------------------------------------------------------------------------
 # Standard constructors: documented defaults and breakpoints.
 
@@ -360,6 +388,11 @@ def selftest():
                                       [3, 0, 'hold']]})
     assert e['levels'] == [0, 1, 0] and e['times'] == [0.5, 2]
     assert e['curves'] == ['sin', -4] and e['offset'] == 0.5
+    # IEnvGen layout
+    assert encode_interpolation([0, 1, 0.5], [1, 2], ['sin', -4], 0.5) == \
+        [0.5, 0, 2, 3, 1, 3, 0, 1, 2, 5, -4, 0.5]
+    assert [interpolation_index(i) for i in range(12)] == \
+        [1, 2, None, None, 7, 4, 5, 6, 11, 8, 9, 10]
     # equal times keep their input order (vertical jump 1 -> 0.25 at t = 1)
     e = ctor_expected('pairs', {'pairs': [[0, 0], [1, 1], [1, 0.25], [2, 0]]})
     assert e['levels'] == [0, 1, 0.25, 0] and e['times'] == [1, 0, 1]
